@@ -22,6 +22,7 @@ import GoNfsd.Lemmas.ShrinkTree
 import GoNfsd.Lemmas.InoOps
 import GoNfsd.Lemmas.Alloc
 import GoNfsd.Lemmas.ShrinkHandoff
+import GoNfsd.Lemmas.FreeEmpty
 import GoNfsd.Gen.Skeleton
 import GoNfsd.Model.Skeleton
 
@@ -517,5 +518,15 @@ example :
     ((GoNfsd.Model.Fs.run (GoNfsd.Model.Fs.mkfs true 100000)
       [(.create (GoNfsd.Model.Fs.mkFh 1 1) [97] 0, { inum := 2, slot := 2 }), (.remove (GoNfsd.Model.Fs.mkFh 1 1) [97], {})]).1.get 1).slots.drop 2
       = [GoNfsd.Model.Fs.freeSlot] := by decide
+
+/-- A FREED OBJECT HOLDS NOTHING (reference model, every history, any choices): an inode that is not in use has size 0, no
+    content and no directory slots — whatever REMOVE, RMDIR or a RENAME over it took away is gone completely, and the next
+    object created under that number starts empty. -/
+theorem a_freed_object_holds_nothing (u : Bool) (sz : Nat) (ops : List (GoNfsd.Model.Fs.Op × GoNfsd.Model.Fs.Choice)) (i : Nat)
+    (hk : ((GoNfsd.Model.Fs.run (GoNfsd.Model.Fs.mkfs u sz) ops).1.get i).kind = 0) :
+    ((GoNfsd.Model.Fs.run (GoNfsd.Model.Fs.mkfs u sz) ops).1.get i).size = 0 ∧
+    ((GoNfsd.Model.Fs.run (GoNfsd.Model.Fs.mkfs u sz) ops).1.get i).content = [] ∧
+    ((GoNfsd.Model.Fs.run (GoNfsd.Model.Fs.mkfs u sz) ops).1.get i).slots = [] :=
+  GoNfsd.Model.Fs.run_freeempty _ ops (GoNfsd.Model.Fs.mkfs_freeempty u sz) i hk
 
 end GoNfsd.Props.C05
